@@ -34,12 +34,20 @@ MANIFEST = dict(
          'Map key, A21, A22, A23, A27, A28, B2) is injected again behind chains of two and three aliases and behind a '
          'chain that crosses an import; the argument rules of annotations (B18 / B22) are evaluated on a grid of '
          'argument shapes for every built-in annotation type and four custom ones (fe.annargs) against an independent '
-         'statement of the rules.',
+         'statement of the rules; "examples that fit their types" is evaluated (fe.exvalues) on a grid of type expression '
+         'x example value -- every primitive type with and without each of its bounds, as a plain field and wrapped in '
+         'every combination of `?` / alias / List / Map (as value and as KEY) / union tag / inherited field up to depth '
+         'two, single-line and multi-line map literals -- against an independent statement of fitting (ex_fits, written '
+         'from the Basic Types table: every item, every map key and every map value, at any depth, must be of the right '
+         'kind and inside every bound of the type at its position), and again by replacing one part (field value, list '
+         'item, map key, map value, whole container) of the examples the generator wrote into whole models by a misfit '
+         '(C3.field / item / key / value / container).',
     note='Trusted: Lean kernel, translator, generators and injectors (what they never produce is never checked), CPython re '
          '(whether a pattern compiles is an external parameter of the model). The iff for whole specs is observed by '
          'testing only. Not judged: booleans used as numeric arguments, null for an optional argument, min > max for '
          'numeric bounds, indentation of the first line of a file, which of several errors is reported, Void as a List / '
-         'Map element. Several patches of one type are legal (all are applied); only a member added twice is injected. '
+         'Map element, whether a String pattern must cover the whole example string or only a prefix, a non-string where '
+         'a Timestamp is expected. Several patches of one type are legal (all are applied); only a member added twice is injected. '
          'Catalogue entries without an injector are listed in the evidence (rules_unbuilt). Exceptions other than '
          'InvalidSpec met on the way are counted here and reported by C03.',
     technique='Lean 4 proof of component models + translator + differential correspondence; by-construction / '
@@ -68,6 +76,7 @@ def run(ck):
     fe_rules.suite_params(ck, report='C01')
     fe_rules.suite_names(ck, report='C01')
     fe_rules.suite_annargs(ck, report='C01')
+    fe_rules.suite_exvalues(ck, report='C01')
     ck.assumptions.extend([
         'identifiers and namespace names are ASCII ([a-zA-Z_][a-zA-Z0-9_-]*; no "/" in a namespace name), so str.lower is Char.toLower',
         'the empty pattern compiles (re.compile("")); whether any other pattern compiles is asked of CPython',
